@@ -45,13 +45,13 @@ func (l *evlog) str(sorted bool) string {
 // ---- open ------------------------------------------------------------------------------------
 
 type scriptDec struct {
-	fSize    int64
-	pfErr    bool
-	tocOff   int64
-	tocSize  int64
-	toc      []bool
-	ncall    int
-	log      *evlog
+	fSize   int64
+	pfErr   bool
+	tocOff  int64
+	tocSize int64
+	toc     []bool
+	ncall   int
+	log     *evlog
 }
 
 func (d *scriptDec) Reader(r io.Reader) (io.ReadCloser, error) { return io.NopCloser(r), nil }
@@ -178,9 +178,9 @@ func (f *scriptFile) ReadAt(p []byte, off int64) (int, error) {
 
 type scriptMeta struct{ f *scriptFile }
 
-func (m *scriptMeta) RootID() uint32                          { return 1 }
-func (m *scriptMeta) TOCDigest() digest.Digest                { return digest.FromString("t") }
-func (m *scriptMeta) GetOffset(id uint32) (int64, error)      { return 0, nil }
+func (m *scriptMeta) RootID() uint32                           { return 1 }
+func (m *scriptMeta) TOCDigest() digest.Digest                 { return digest.FromString("t") }
+func (m *scriptMeta) GetOffset(id uint32) (int64, error)       { return 0, nil }
 func (m *scriptMeta) GetAttr(id uint32) (metadata.Attr, error) { return metadata.Attr{}, nil }
 func (m *scriptMeta) GetChild(pid uint32, base string) (uint32, metadata.Attr, error) {
 	return 0, metadata.Attr{}, errors.New("none")
